@@ -1,11 +1,13 @@
 #!/bin/sh
 # seedtest.sh <patch.diff> <PROPERTY>... : apply a seeded change to /repo, run the checks, undo it
 P="$1"; shift
-cd /repo || exit 2
-[ -z "$(git status --porcelain)" ] || { echo "/repo not clean"; exit 2; }
-trap 'git -C /repo checkout -- . ' EXIT INT TERM
+V="$(cd "$(dirname "$0")/.." && pwd)"
+R="${VERIF_REPO:-/repo}"
+cd "$R" || exit 2
+[ -z "$(git status --porcelain)" ] || { echo "$R not clean"; exit 2; }
+trap 'git -C "$R" checkout -- . ' EXIT INT TERM
 git apply "$P" || { echo "patch does not apply"; exit 2; }
-cd /verif
+cd "$V"
 for pid in "$@"; do
   echo "--- $pid"
   ./check "$pid" | cut -c1-260
